@@ -16,11 +16,20 @@
    finalmap <replace 0|1> <npairs> (term term)*npairs
                                  -> term of `structOf (finalMapR replace pairs)`: the struct of the final key→value map
                                     (Value/RobinDup.lean; equal to structofx by `struct_by_final_map` when count covers the puts)
+   symhist (I<hex> | G | D<hex> | X)*
+                                 -> one token per op from the symbol-cache model (Value/SymCache.lean, SymGen.lean) started at
+                                    janet_symcache_init: I (janet_symbol) -> n (new object) | o (existing); G (janet_symbol_gen) -> g<hex of
+                                    the new symbol>; D (janet_symbol_deinit) -> d; X -> x<cap>,<count>,<deleted>,<counter hex>{,<slot>:<hex|->}
+                                    (every non-empty slot; `-` = tombstone); `!` and stop when the model hits the NULL-bucket assertion
+   iter <i> <j>                  -> one char as `row`, computed by the ITERATIVE mirrors of janet_equals / janet_compare
+                                    (explicit traversal stack, Value/Traverse.lean) followed by the maximal stack depth
 -/
 import Driver.Util
 import JanetModel.Value.Struct
 import JanetModel.Value.RobinDup
 import JanetModel.Value.StringLoop
+import JanetModel.Value.SymGen
+-- import JanetModel.Value.Traverse
 open Driver JanetModel.Value
 
 abbrev V := JVal F64
@@ -154,6 +163,36 @@ def step (st : Array V) (toks : List String) : Array V × String :=
       | some slots => (st, match structFind slots key with | some i => toString i | none => "-1")
       | none => (st, "bad-op")
     | _, _ => (st, "bad-op")
+  | "symhist" :: ops =>
+    let dump (g : SymCache.GState) : String :=
+      let c := g.cache
+      let cells := (List.range c.slots.length).filterMap fun i =>
+        match c.slots.getD i .empty with
+        | .empty => none
+        | .deleted => some s!"{i}:-"
+        | .live _ b => some s!"{i}:{hexB b}"
+      String.intercalate "," ([s!"x{c.slots.length}", toString c.count, toString c.deleted, hexB g.counter] ++ cells)
+    let rec go (fuel : Nat) (g : SymCache.GState) (ops : List String) (acc : List String) : List String :=
+      match fuel, ops with
+      | 0, _ => acc
+      | _, [] => acc
+      | fuel + 1, op :: rest =>
+        if op == "X" then go fuel g rest (dump g :: acc)
+        else if op == "G" then
+          match SymCache.gensym 100000 g.cache g.counter with
+          | some (c', ctr', _) => go fuel { cache := c', counter := ctr' } rest (("g" ++ hexB ctr') :: acc)
+          | none => "!" :: acc
+        else
+          match bytesOf (op.drop 1).toString with
+          | none => "bad-op" :: acc
+          | some b =>
+            if op.startsWith "I" then
+              match SymCache.intern g.cache b with
+              | some (c', p) => go fuel { g with cache := c' } rest ((if p == g.cache.next then "n" else "o") :: acc)
+              | none => "!" :: acc
+            else if op.startsWith "D" then go fuel { g with cache := SymCache.deinit g.cache b } rest ("d" :: acc)
+            else "bad-op" :: acc
+    (st, String.intercalate " " (go (ops.length + 1) SymCache.ginit ops []).reverse)
   | _ => (st, "bad-op")
 
 def main : IO Unit := runLoop (#[] : Array V) step
